@@ -102,7 +102,10 @@ func (s *sink) got() []string {
 // `expect` (what the harness knows should match) only bounds the waiting time.
 func (w *world) deliver(sd *side, scope string, expect int) []string {
 	w.sink.reset()
-	if err := sd.mgr.wm.BroadcastEvent("verif", scope, map[string]int{"x": 1}); err != nil {
+	var berr error
+	if pn, _ := vhlib.Try(func() { berr = sd.mgr.wm.BroadcastEvent("verif", scope, map[string]int{"x": 1}) }); pn {
+		return []string{"panic"}
+	} else if berr != nil {
 		return []string{"err"}
 	}
 	// deliveries are asynchronous (one goroutine per hook): wait until as many sink paths were hit as the
@@ -478,6 +481,33 @@ func (w *world) hookInfos(sd *side) []hookInfo {
 	return out
 }
 
+// doDeliver: `deliver ev=<scope>`: broadcast one event through the running webhook manager and compare who
+// received it with who is registered for it in the DATABASE (the manager's hook table and scope tree are
+// an in-memory mirror of the webhooks table).
+func (w *world) doDeliver(tr *vhlib.Trace, p vhlib.ParsedLine) {
+	if w.main.mgr == nil {
+		tr.Line(p.Raw, "bad=needs_managers")
+		return
+	}
+	scope := p.Args["ev"]
+	hs, _ := w.main.st.Webhooks()
+	var want []string
+	for _, h := range hs {
+		for _, sc := range h.Scopes {
+			if sc == "all" || sc == scope || strings.HasPrefix(scope, sc+"/") {
+				if i := strings.LastIndex(h.CallbackURL, "/"); i >= 0 {
+					want = append(want, h.CallbackURL[i+1:])
+				}
+				break
+			}
+		}
+	}
+	sort.Strings(want)
+	got := w.deliver(w.main, scope, len(want))
+	tr.Count("deliver")
+	tr.Line(p.Raw, fmt.Sprintf("want=%s got=%s cache=%s", vhlib.FmtList(want), vhlib.FmtList(got), plus(w.main.cacheDiff(w.b.liveIDs()))))
+}
+
 func (w *world) restartSide(sd *side, abrupt bool) (*side, []string) {
 	var alters []string
 	if !abrupt {
@@ -628,6 +658,33 @@ func (sd *side) volumeFacts() []string {
 	return out
 }
 
+// volumeCacheDiff: the volume manager's in-memory volumes map against the persisted rows: every stored volume
+// is known to the manager (it has a status), served with the stored flags and occupancy by Volumes() and by
+// Volume(id), and the manager lists nothing else; Usage() is the sum over the rows.
+func (sd *side) volumeCacheDiff() []string {
+	var out []string
+	rows, err := sd.st.Volumes()
+	listed, err2 := sd.mgr.vm.Volumes()
+	if err != nil || err2 != nil {
+		return []string{"volumes_err"}
+	}
+	if len(rows) != len(listed) {
+		out = append(out, "volumes_count")
+	}
+	var used, total uint64
+	for _, r := range rows {
+		used, total = used+r.UsedSectors, total+r.TotalSectors
+		v, err := sd.mgr.vm.Volume(r.ID)
+		if err != nil || v.Status == "" || v.Available != r.Available || v.ReadOnly != r.ReadOnly || v.UsedSectors != r.UsedSectors || v.TotalSectors != r.TotalSectors {
+			out = append(out, fmt.Sprintf("volume%d", r.ID))
+		}
+	}
+	if u, t, err := sd.mgr.vm.Usage(); err != nil || u != used || t != total {
+		out = append(out, "usage")
+	}
+	return out
+}
+
 // writeProbe stores one fresh sector through the volume manager on both sides.
 func (w *world) writeProbe() string {
 	w.probe++
@@ -716,7 +773,7 @@ func (w *world) doVolumeOp(tr *vhlib.Trace, p vhlib.ParsedLine) {
 		results = append(results, classify(pn, err))
 	}
 	tr.Count("vop:" + p.Args["name"] + ":" + results[1])
-	tr.Line(p.Raw, fmt.Sprintf("twin=%s res=%s", results[0], results[1]))
+	tr.Line(p.Raw, fmt.Sprintf("twin=%s res=%s cache=%s", results[0], results[1], plus(w.main.volumeCacheDiff())))
 }
 
 // ---------------------------------------------------------------- chain resume
